@@ -7,7 +7,7 @@ namespace Stfs.C15
 open Stfs Gen
 
 /-- every handle was obtained read-only and has no write cache -/
-def HandlesRO (s : Sys) : Prop := ∀ x ∈ s.handles, x.2.wbuf = none ∧ x.2.flags.write = false
+def HandlesRO (s : Sys) : Prop := ∀ x ∈ s.handles, HRO x.2
 
 /-- the read-only invariant relative to the data `w0` the instance was opened over -/
 def ROInv (w0 : World) (s : Sys) : Prop := SameAs w0 s.w ∧ HandlesRO s
@@ -42,9 +42,9 @@ theorem getHandle_mem (s : Sys) (id : Nat) (h : Handle) (hg : s.getHandle id = s
 
 /-- (1) Every mutating filesystem method fails with a permission error on a read-only
     instance, whatever the state and the arguments, and leaves the instance exactly as it was. -/
-theorem mutating_calls_denied (f : FsCfg) (hro : f.readOnly = true) (s : Sys) (env : Env) (c : Call)
-    (hc : isMutating c = true) : s.step f env c = (s, .error .permission) := by
-  cases c <;> simp [isMutating] at hc <;> simp only [Sys.step]
+theorem mutating_calls_denied0 (f : FsCfg) (hro : f.readOnly = true) (s : Sys) (env : Env) (c : Call)
+    (hc : isMutating c = true) : s.step0 f env c = (s, .error .permission) := by
+  cases c <;> simp [isMutating] at hc <;> simp only [Sys.step0]
   case mkdir n p => rw [mkdir_denied hro]; exact run_fail _ _ _
   case mkdirAll n p => rw [mkdirAll_denied hro]; exact run_fail _ _ _
   case remove n => rw [remove_denied hro]; exact run_fail _ _ _
@@ -56,18 +56,35 @@ theorem mutating_calls_denied (f : FsCfg) (hro : f.readOnly = true) (s : Sys) (e
   case symlink a b => rw [symlink_denied hro]; exact run_fail _ _ _
   case create id n => rw [create_denied hro]; rfl
 
+/-- (1) Every mutating filesystem method fails with a permission error on a read-only
+    instance, whatever the state and the arguments, and leaves the instance exactly as it was. -/
+theorem mutating_calls_denied (f : FsCfg) (hro : f.readOnly = true) (s : Sys) (env : Env) (c : Call)
+    (hc : isMutating c = true) : s.step f env c = (s, .error .permission) := by
+  unfold Sys.step
+  split
+  · rename_i hb
+    rw [mutating_calls_denied0 f hro _ env c hc]
+    simp only
+    have hst : s.w.stuck = false := by
+      simp only [Bool.and_eq_true, Bool.not_eq_true'] at hb; exact hb.2
+    cases s with
+    | mk w hs =>
+      cases w with
+      | mk t i st => simp only at hst; subst hst; rfl
+  · exact mutating_calls_denied0 f hro s env c hc
+
 /-- (2) For any call other than `Initialize` (which may build a missing index), in any state a
     read-only instance can be in: tape, table (tombstones included) and drive state are
     unchanged, and handles stay read-only. -/
-theorem readonly_step (f : FsCfg) (hro : f.readOnly = true) (w0 : World) (s : Sys) (env : Env) (c : Call)
-    (hinv : ROInv w0 s) (hc : isInit c = false) : ROInv w0 (s.step f env c).1 := by
+theorem readonly_step0 (f : FsCfg) (hro : f.readOnly = true) (w0 : World) (s : Sys) (env : Env) (c : Call)
+    (hinv : ROInv w0 s) (hc : isInit c = false) : ROInv w0 (s.step0 f env c).1 := by
   obtain ⟨hw, hh⟩ := hinv
   have hst := sameAs_stable w0
   have hm : ∀ a b c d e g, Pres (SameAs w0) (mknod f env a b c d e g) := by
     intro a b c d e g; rw [mknod_denied hro]; exact Pres.fail _
   by_cases hmut : isMutating c = true
-  · rw [mutating_calls_denied f hro s env c hmut]; exact ⟨hw, hh⟩
-  · cases c <;> simp [isMutating] at hmut <;> simp [isInit] at hc <;> simp only [Sys.step]
+  · rw [mutating_calls_denied0 f hro s env c hmut]; exact ⟨hw, hh⟩
+  · cases c <;> simp [isMutating] at hmut <;> simp [isInit] at hc <;> simp only [Sys.step0]
     case stat n => exact ⟨by rw [Sys.run_w]; exact (statOrLink_ro hst _).run _ hw, by unfold Sys.run; split <;> exact hh⟩
     case lstat n => exact ⟨by rw [Sys.run_w]; exact (lstat_ro hst _).run _ hw, by unfold Sys.run; split <;> exact hh⟩
     case readlink n => exact ⟨by rw [Sys.run_w]; exact (readlink_ro hst _).run _ hw, by unfold Sys.run; split <;> exact hh⟩
@@ -75,7 +92,7 @@ theorem readonly_step (f : FsCfg) (hro : f.readOnly = true) (w0 : World) (s : Sy
       exact ⟨by rw [Sys.run_w]; exact (cat_pres' hst (fun w h => h) env hm n).run _ hw, by unfold Sys.run; split <;> exact hh⟩
     case openFile id n flag perm =>
       have hp := (openFile_pres' hst env hm n flag perm).run _ hw
-      have hf := openFile_flags f env n flag perm s.w
+      have hf := (openFile_flags f env n flag perm).run s.w
       split
       · rename_i w' o heq
         rw [heq] at hp
@@ -87,7 +104,7 @@ theorem readonly_step (f : FsCfg) (hro : f.readOnly = true) (w0 : World) (s : Sy
         rw [heq] at hp; exact ⟨hp, hh⟩
     case open_ id n =>
       have hp := (openFile_pres' hst env hm (clean n) 0 0).run _ hw
-      have hf := openFile_flags f env (clean n) 0 0 s.w
+      have hf := (openFile_flags f env (clean n) 0 0).run s.w
       show ROInv w0 (match fsOpen f env n s.w with
         | (w, .ok o) => (({ s with w := w } : Sys).setHandle id (Handle.ofOpened o), (.ok .unit : Except Err Val))
         | (w, .error e) => ({ s with w := w }, .error e)).1
@@ -129,6 +146,100 @@ theorem readonly_step (f : FsCfg) (hro : f.readOnly = true) (w0 : World) (s : Sy
           · simp [hd]; rfl
           · simp [hd, hmem.2]; rfl
         rw [this]; exact ⟨hw, hh⟩
+    case hread id n =>
+      split
+      · exact ⟨hw, hh⟩
+      · rename_i h hg
+        have hmem : HRO h := by
+          rcases getHandle_mem s id h hg with hm' | ⟨i, hm'⟩
+          · exact hh _ hm'
+          · exact hh _ hm'
+        have hp := (hRead_ro hst (fun w h => h) f h n).run _ hw
+        have hq := (hRead_hro f h n hmem).run s.w
+        split
+        · rename_i w' h' b eof heq
+          rw [heq] at hp
+          exact ⟨hp, handlesRO_set s w' id _ hh (hq w' _ heq)⟩
+        · rename_i w' e heq
+          rw [heq] at hp; exact ⟨hp, hh⟩
+    case hreadAt id n off =>
+      split
+      · exact ⟨hw, hh⟩
+      · rename_i h hg
+        have hmem : HRO h := by
+          rcases getHandle_mem s id h hg with hm' | ⟨i, hm'⟩
+          · exact hh _ hm'
+          · exact hh _ hm'
+        have hp := (hReadAt_ro hst (fun w h => h) f h n off).run _ hw
+        have hq := (hReadAt_hro f h n off hmem).run s.w
+        split
+        · rename_i w' h' b eof heq
+          rw [heq] at hp
+          exact ⟨hp, handlesRO_set s w' id _ hh (hq w' _ heq)⟩
+        · rename_i w' e heq
+          rw [heq] at hp; exact ⟨hp, hh⟩
+    case hseek id off wh =>
+      split
+      · exact ⟨hw, hh⟩
+      · rename_i h hg
+        have hmem : HRO h := by
+          rcases getHandle_mem s id h hg with hm' | ⟨i, hm'⟩
+          · exact hh _ hm'
+          · exact hh _ hm'
+        have hp := (hSeekNoLock_ro hst (fun w h => h) f h off wh).run _ hw
+        have hq := (hSeekNoLock_hro f h off wh hmem).run s.w
+        split
+        · rename_i w' h' r heq
+          rw [heq] at hp
+          exact ⟨hp, handlesRO_set s w' id _ hh (hq w' _ heq)⟩
+        · rename_i w' e heq
+          rw [heq] at hp; exact ⟨hp, hh⟩
+    case hwriteAt id data off =>
+      split
+      · exact ⟨hw, hh⟩
+      · rename_i h hg
+        have hmem : h.wbuf = none ∧ h.flags.write = false := by
+          rcases getHandle_mem s id h hg with hm' | ⟨i, hm'⟩
+          · exact hh _ hm'
+          · exact hh _ hm'
+        have : writeGuard h = some (if h.info.isDir then .isDirectory else .permission) := by
+          unfold writeGuard
+          by_cases hd : h.info.isDir = true
+          · simp [hd]
+          · simp [hd, hmem.2]
+        rw [this]; exact ⟨hw, hh⟩
+    case htruncate id sz =>
+      split
+      · exact ⟨hw, hh⟩
+      · rename_i h hg
+        have hmem : h.wbuf = none ∧ h.flags.write = false := by
+          rcases getHandle_mem s id h hg with hm' | ⟨i, hm'⟩
+          · exact hh _ hm'
+          · exact hh _ hm'
+        have : writeGuard h = some (if h.info.isDir then .isDirectory else .permission) := by
+          unfold writeGuard
+          by_cases hd : h.info.isDir = true
+          · simp [hd]
+          · simp [hd, hmem.2]
+        rw [this]; exact ⟨hw, hh⟩
+    case hstat id =>
+      split
+      · exact ⟨hw, hh⟩
+      · rename_i h hg
+        have hmem : HRO h := by
+          rcases getHandle_mem s id h hg with hm' | ⟨i, hm'⟩
+          · exact hh _ hm'
+          · exact hh _ hm'
+        have hp := (hStat_pres (I := SameAs w0) h).run _ hw
+        have hq := (hStat_hro h hmem).run s.w
+        split
+        · rename_i w' h' i heq
+          rw [heq] at hp
+          exact ⟨hp, handlesRO_set s w' id _ hh (hq w' _ heq)⟩
+        · rename_i w' e heq
+          rw [heq] at hp; exact ⟨hp, hh⟩
+    case hname id =>
+      split <;> exact ⟨hw, hh⟩
     case hsync id =>
       split
       · exact ⟨hw, hh⟩
@@ -160,8 +271,8 @@ theorem readonly_step (f : FsCfg) (hro : f.readOnly = true) (w0 : World) (s : Sy
           rcases getHandle_mem s id h hg with hm' | ⟨i, hm'⟩
           · exact hh _ hm'
           · exact hh _ hm'
-        have : hClose f env h s.w = (s.w, .ok h) := by
-          unfold hClose; simp [hmem.1]; rfl
+        have : hClose f env h s.w = (s.w, .ok { h with reader := none }) := by
+          unfold hClose hCloseCore; simp [hmem.1]; rfl
         rw [this]
         refine ⟨hw, ?_⟩
         intro x hx
@@ -172,11 +283,24 @@ theorem readonly_step (f : FsCfg) (hro : f.readOnly = true) (w0 : World) (s : Sy
       · rename_i h hg
         exact ⟨by rw [Sys.run_w]; exact (hReaddir_ro hst h n).run _ hw, by unfold Sys.run; split <;> exact hh⟩
 
+theorem readonly_step (f : FsCfg) (hro : f.readOnly = true) (w0 : World) (s : Sys) (env : Env) (c : Call)
+    (hinv : ROInv w0 s) (hc : isInit c = false) : ROInv w0 (s.step f env c).1 := by
+  unfold Sys.step
+  split
+  · have h1 : ROInv w0 { s with w := { s.w with stuck := true } } := ⟨hinv.1, hinv.2⟩
+    have := readonly_step0 f hro w0 _ env c h1 hc
+    generalize Sys.step0 f { s with w := { s.w with stuck := true } } env c = x at this
+    rcases x with ⟨s', r⟩
+    split
+    · rename_i heq; injection heq with e1 _; subst e1; exact this
+    · rename_i s2 r2 _ heq; injection heq with e1 _; subst e1; exact ⟨this.1, this.2⟩
+  · exact readonly_step0 f hro w0 s env c hinv hc
+
 /-- (3) `Initialize` on a read-only instance may rebuild a missing index but never touches the
     tape (and cannot fall back to creating a root). -/
 theorem readonly_initialize_keeps_tape (f : FsCfg) (hro : f.readOnly = true) (s : Sys) (env : Env) (r : Name) (p : Int) :
-    (s.step f env (.init r p)).1.w.tape = s.w.tape := by
-  simp only [Sys.step, Sys.run_w]
+    (s.step0 f env (.init r p)).1.w.tape = s.w.tape := by
+  simp only [Sys.step0, Sys.run_w]
   unfold initFs
   rcases hg : s.w.idx.getRootPath with ⟨q, res⟩
   cases res with
